@@ -861,3 +861,102 @@ def describe_pair(case, r1, r2):
     return dict(mech=case['mech'], events_run1=len(r1.events), events_run2=len(r2.events),
                 run1_error=r1.error, run2_error=r2.error,
                 records=int(r1.input.records), records_neighbour=int(r2.input.records))
+
+
+# ------------------------------------------------------------------------------------------
+# hash-seed isolation
+# ------------------------------------------------------------------------------------------
+# The mechanisms iterate over sets of attribute-name tuples (downward_closure, set.union in synthetic_data,
+# networkx components), so the order of candidates - and with it the meaning of a recorded outcome sequence -
+# depends on the interpreter's string-hash seed.  Within one process both runs of a pair see the same order, so
+# the comparison is sound either way, but a replay file must reproduce in a NEW process.  Unless the interpreter
+# already runs with PYTHONHASHSEED=0, every process that evaluates cases does so in one long-lived child
+# interpreter started with PYTHONHASHSEED=0 (frames of pickled (property id, case) -> result over pipes).
+HASHSEED = '0'
+_CHILD = None
+
+
+def dispatch(prop_id, case, run_here):
+    import os
+    if os.environ.get('PYTHONHASHSEED') == HASHSEED:
+        return run_here(case)
+    return _child().call(prop_id, case)
+
+
+class _Child:
+    def __init__(self):
+        import os, subprocess
+        from .. import env
+        e = dict(os.environ, PYTHONHASHSEED=HASHSEED, PV_DP_CHILD='1')
+        self.p = subprocess.Popen([sys.executable, '-W', 'ignore', '-m', 'pv.bounded.dp_harness', '--child'],
+                                  cwd=env.VERIF, env=e, stdin=subprocess.PIPE, stdout=subprocess.PIPE)
+        self.pid = os.getpid()
+
+    def call(self, prop_id, case):
+        import pickle, struct
+        blob = pickle.dumps((prop_id, case))
+        try:
+            self.p.stdin.write(struct.pack('<Q', len(blob)) + blob)
+            self.p.stdin.flush()
+            head = self.p.stdout.read(8)
+            if len(head) < 8:
+                raise EOFError
+            (n,) = struct.unpack('<Q', head)
+            status, payload = pickle.loads(self.p.stdout.read(n))
+        except (EOFError, BrokenPipeError, OSError) as e:
+            global _CHILD
+            _CHILD = None
+            raise HarnessError('case evaluator child died (%s)' % type(e).__name__)
+        if status == 'error':
+            raise RuntimeError(payload)
+        return payload
+
+
+def _child():
+    global _CHILD
+    import os
+    if _CHILD is None or _CHILD.pid != os.getpid() or _CHILD.p.poll() is not None:
+        _CHILD = _Child()
+    return _CHILD
+
+
+def _child_main():
+    import importlib, os, pickle, struct, traceback
+    inp = os.fdopen(os.dup(0), 'rb')
+    out = os.fdopen(os.dup(1), 'wb')
+    devnull = os.open(os.devnull, os.O_WRONLY)
+    os.dup2(devnull, 1)                      # anything the code under test prints goes nowhere
+    sys.stdout = open(os.devnull, 'w')
+    import threading, time
+    parent = os.getppid()
+
+    def watchdog():                          # do not outlive the process that asked for the work
+        while True:
+            time.sleep(0.5)
+            if os.getppid() != parent:
+                os._exit(0)
+    threading.Thread(target=watchdog, daemon=True).start()
+    from .. import env
+    env.ensure_repo_importable()
+    props = {}
+    while True:
+        head = inp.read(8)
+        if len(head) < 8:
+            return
+        (n,) = struct.unpack('<Q', head)
+        prop_id, case = pickle.loads(inp.read(n))
+        try:
+            if prop_id not in props:
+                props[prop_id] = importlib.import_module('pv.props.' + prop_id).PROP
+            res = props[prop_id].run_case_here(case)
+            from ..runner import jsonable
+            msg = ('ok', [(c, bool(ok), jsonable(d)) for c, ok, d in res])
+        except Exception as e:
+            msg = ('error', '%s: %s\n%s' % (type(e).__name__, e, traceback.format_exc(limit=8)))
+        blob = pickle.dumps(msg)
+        out.write(struct.pack('<Q', len(blob)) + blob)
+        out.flush()
+
+
+if __name__ == '__main__' and '--child' in sys.argv:
+    _child_main()
